@@ -10,7 +10,8 @@
 (***************************************************************************)
 EXTENDS LinkProps
 
-CONSTANTS Cmds, MaxConnFail, NInit, DevErrAbs
+CONSTANTS Cmds, MaxConnFail, NInit, DevErrAbs,
+          BTimeouts   \* bring-up exchange (of the first reconnection that opens) at which a time-out is injected; 0 = none
 DevErr == 0 - DevErrAbs
 
 StepsOf(c) == CASE c = "version" -> 0 [] c = "getPubKey" -> 1 [] c = "sign_hash" -> 1
@@ -24,8 +25,8 @@ StepsOf(c) == CASE c = "version" -> 0 [] c = "getPubKey" -> 1 [] c = "sign_hash"
 ExitStep(c, k) == c = "uiHeartbeat" /\ k \in {2, 9}
 Kinds == {"write", "read", "timeout"}
 
-VARIABLES pc, commIssue, cmd, k, reqNo, fault, connFail, obs, bad, plan
-vars == <<pc, commIssue, cmd, k, reqNo, fault, connFail, obs, bad, plan>>
+VARIABLES pc, commIssue, cmd, k, reqNo, fault, connFail, obs, bad, plan, bfault
+vars == <<pc, commIssue, cmd, k, reqNo, fault, connFail, obs, bad, plan, bfault>>
 \* fault: the single injected fault [pos, kind] (pos = 0: none left)
 
 E0(kind) == [k |-> kind, ok |-> "t", init |-> 0, fault |-> "none", code |-> 0, hascode |-> TRUE,
@@ -39,38 +40,44 @@ Init == /\ pc = "idle" /\ commIssue = FALSE /\ cmd = "none" /\ k = 0 /\ reqNo = 
              \E p \in 1..StepsOf(c), kd \in Kinds :
                 /\ ~(ExitStep(c, p) /\ kd # "timeout")
                 /\ fault = [pos |-> p, kind |-> kd]
-                /\ \E cf \in 0..MaxConnFail, f \in Cmds :
-                     /\ connFail = cf
-                     /\ plan = [cmd |-> c, pos |-> p, kind |-> kd, connfail |-> cf, follow |-> f]
+                /\ \E cf \in 0..MaxConnFail, f \in Cmds, bt \in BTimeouts :
+                     /\ connFail = cf /\ bfault = bt
+                     /\ plan = [cmd |-> c, pos |-> p, kind |-> kd, connfail |-> cf, follow |-> f, btimeout |-> bt]
         /\ obs = InitObs /\ bad = ""
 
 \* request 1 is the faulted command; later requests are the follow-up command, repeated
-Begin == /\ pc = "idle" /\ reqNo < 2 + MaxConnFail
+Begin == /\ pc = "idle" /\ reqNo < 2 + MaxConnFail + (IF plan.btimeout > 0 THEN 1 ELSE 0)
          /\ reqNo' = reqNo + 1 /\ k' = 0
          /\ cmd' = IF reqNo = 0 THEN plan.cmd ELSE plan.follow
          /\ Emit(E0("req"))
          /\ pc' = IF StepsOf(cmd') = 0 THEN "finish" ELSE IF commIssue THEN "close" ELSE "cmd"
-         /\ UNCHANGED <<commIssue, fault, connFail, plan>>
+         /\ UNCHANGED <<commIssue, fault, connFail, plan, bfault>>
 
 \* ensure_connection: disconnect() ...
 Close == /\ pc = "close" /\ Emit(E0("close")) /\ pc' = "open"
-         /\ UNCHANGED <<commIssue, cmd, k, reqNo, fault, connFail, plan>>
+         /\ UNCHANGED <<commIssue, cmd, k, reqNo, fault, connFail, plan, bfault>>
 \* ... connect() inside initialize_device(): a failure is reported as a device error, flag stays set
 Open == /\ pc = "open"
         /\ IF connFail > 0
            THEN /\ connFail' = connFail - 1 /\ Emit([E0("open") EXCEPT !.ok = "f"]) /\ pc' = "failreply"
            ELSE /\ Emit(E0("open")) /\ pc' = "bringup" /\ UNCHANGED connFail
-        /\ UNCHANGED <<commIssue, cmd, k, reqNo, fault, plan>>
+        /\ UNCHANGED <<commIssue, cmd, k, reqNo, fault, plan, bfault>>
 FailReply == /\ pc = "failreply" /\ Emit([E0("reply") EXCEPT !.code = DevErr]) /\ pc' = "idle"
-             /\ UNCHANGED <<commIssue, cmd, k, reqNo, fault, connFail, plan>>
+             /\ UNCHANGED <<commIssue, cmd, k, reqNo, fault, connFail, plan, bfault>>
 \* the bring-up exchanges, one action each; the flag is cleared only when all of them succeeded
+\* A time-out inside the repeated bring-up (GET_MODE, version, GET_PARAMETERS) is not an HSM2ProtocolError:
+\* it leaves ensure_connection as it is, the command handler answers the device error, the flag stays set
+\* and the next request starts the repair again.
 Bringup == /\ pc = "bringup" /\ k < NInit
-           /\ Emit([E0("apdu") EXCEPT !.init = k + 1])
-           /\ k' = k + 1
-           /\ IF k + 1 = NInit THEN commIssue' = FALSE /\ pc' = "cmd0" ELSE UNCHANGED <<commIssue, pc>>
+           /\ IF bfault = k + 1
+              THEN /\ Emit([E0("apdu") EXCEPT !.init = k + 1, !.fault = "timeout"])
+                   /\ bfault' = 0 /\ pc' = "faultreply" /\ UNCHANGED <<k, commIssue>>
+              ELSE /\ Emit([E0("apdu") EXCEPT !.init = k + 1])
+                   /\ k' = k + 1 /\ UNCHANGED bfault
+                   /\ IF k + 1 = NInit THEN commIssue' = FALSE /\ pc' = "cmd0" ELSE UNCHANGED <<commIssue, pc>>
            /\ UNCHANGED <<cmd, reqNo, fault, connFail, plan>>
 CmdStart == /\ pc = "cmd0" /\ k' = 0 /\ pc' = "cmd"
-            /\ UNCHANGED <<commIssue, cmd, reqNo, fault, connFail, obs, bad, plan>>
+            /\ UNCHANGED <<commIssue, cmd, reqNo, fault, connFail, obs, bad, plan, bfault>>
 
 Exchange == /\ pc = "cmd" /\ k < StepsOf(cmd)
             /\ IF reqNo = 1 /\ fault.pos = k + 1
@@ -80,12 +87,12 @@ Exchange == /\ pc = "cmd" /\ k < StepsOf(cmd)
                     /\ pc' = "faultreply" /\ UNCHANGED k
                ELSE /\ Emit([E0("apdu") EXCEPT !.fault = IF ExitStep(cmd, k + 1) THEN "drop" ELSE "none"])
                     /\ k' = k + 1 /\ UNCHANGED <<fault, commIssue, pc>>
-            /\ UNCHANGED <<cmd, reqNo, connFail, plan>>
+            /\ UNCHANGED <<cmd, reqNo, connFail, plan, bfault>>
 FaultReply == /\ pc = "faultreply" /\ Emit([E0("reply") EXCEPT !.code = DevErr]) /\ pc' = "idle"
-              /\ UNCHANGED <<commIssue, cmd, k, reqNo, fault, connFail, plan>>
+              /\ UNCHANGED <<commIssue, cmd, k, reqNo, fault, connFail, plan, bfault>>
 Finish == /\ pc \in {"cmd", "finish"} /\ k = StepsOf(cmd)
           /\ Emit([E0("reply") EXCEPT !.code = 0]) /\ pc' = "idle"
-          /\ UNCHANGED <<commIssue, cmd, k, reqNo, fault, connFail, plan>>
+          /\ UNCHANGED <<commIssue, cmd, k, reqNo, fault, connFail, plan, bfault>>
 
 Next == Begin \/ Close \/ Open \/ FailReply \/ Bringup \/ CmdStart \/ Exchange \/ FaultReply \/ Finish
 Spec == Init /\ [][Next]_vars
@@ -94,5 +101,5 @@ NoViolation == bad = ""
 \* vacuity guards (negative configurations): a repair is really owed / really performed somewhere
 NeverOwed    == ~obs.owed
 NeverRepairs == ~(obs.phase = "inited")
-Done == pc = "idle" /\ reqNo = 2 + MaxConnFail
+Done == pc = "idle" /\ reqNo = 2 + MaxConnFail + (IF plan.btimeout > 0 THEN 1 ELSE 0)
 =============================================================================
